@@ -60,10 +60,8 @@ def ref_optimum(R):
     if o.check() != z3.sat:
         return None
     v = o.upper(h)
-    try:
-        return float(v.numerator_as_long()) / float(v.denominator_as_long())
-    except Exception:  # noqa: BLE001
-        return float(str(v))
+    from fractions import Fraction
+    return float(Fraction(str(v)))
 
 
 def observe(sh, op, env, rq):
